@@ -117,16 +117,18 @@ ares_status_t
         funcs->arecvfrom == NULL || funcs->asendto == NULL) {
       return ARES_EFORMERR;
     }
-    channel->sock_funcs.version      = funcs->version;
-    channel->sock_funcs.flags        = funcs->flags;
-    channel->sock_funcs.asocket      = funcs->asocket;
-    channel->sock_funcs.aclose       = funcs->aclose;
-    channel->sock_funcs.asetsockopt  = funcs->asetsockopt;
-    channel->sock_funcs.aconnect     = funcs->aconnect;
-    channel->sock_funcs.arecvfrom    = funcs->arecvfrom;
-    channel->sock_funcs.asendto      = funcs->asendto;
-    channel->sock_funcs.agetsockname = funcs->agetsockname;
-    channel->sock_funcs.abind        = funcs->abind;
+    channel->sock_funcs.version         = funcs->version;
+    channel->sock_funcs.flags           = funcs->flags;
+    channel->sock_funcs.asocket         = funcs->asocket;
+    channel->sock_funcs.aclose          = funcs->aclose;
+    channel->sock_funcs.asetsockopt     = funcs->asetsockopt;
+    channel->sock_funcs.aconnect        = funcs->aconnect;
+    channel->sock_funcs.arecvfrom       = funcs->arecvfrom;
+    channel->sock_funcs.asendto         = funcs->asendto;
+    channel->sock_funcs.agetsockname    = funcs->agetsockname;
+    channel->sock_funcs.abind           = funcs->abind;
+    channel->sock_funcs.aif_nametoindex = funcs->aif_nametoindex;
+    channel->sock_funcs.aif_indextoname = funcs->aif_indextoname;
   }
 
   /* Implement newer versions here ...*/
